@@ -49,7 +49,9 @@ def check_cert(ctx, fn, wire, ret_name, exp_name_prefix, issuer_comp, pub, sinfo
         ver = int.from_bytes(v, 'big')
         if t != 0x36 or rc.enc_nni(ver) != v or not (t_call[0] - 2 <= ver <= t_call[1] + 2):
             ctx.report('cert-version', f'{fn}: last component is not a version number of the issuing time', dict(w, got=name[-1].hex()))
-    if [bytes(c) for c in ret_name] != name:
+    if any(not isinstance(c, (bytes, bytearray, memoryview)) for c in ret_name):
+        ctx.report('cert-returned-name', f'{fn}: the returned name is not a list of encoded components (found {sorted({type(c).__name__ for c in ret_name})})', w)
+    elif [bytes(c) for c in ret_name] != name:
         ctx.report('cert-returned-name', f'{fn}: returned name differs from the name in the wire', w)
     if r['content'] != pub:
         ctx.report('cert-content', f'{fn}: content is not the given public key', w)
